@@ -422,7 +422,7 @@ class Check:
             evaluations=meta.get("evaluations", 0),
             distinct_nontrivial=meta.get("distinct_nontrivial", 0),
             rule=meta.get("rule", ""),
-            samples=meta.get("samples", [])[:3],
+            samples=(meta.get("samples") or [])[:3],
             exhaustive=bool(meta.get("exhaustive", False)),
             traces_validated_against_impl=meta.get("evaluations", 0),
             families=meta.get("families", {}),
